@@ -28,7 +28,7 @@ ASSUMPTIONS = [
 FIXED_SPECIES = {
     "A": [("AAA", ["C1", "C2", "O1"])],
     "B": [("XB", ["N1", "C1"]), ("XB", ["N1", "C1"]), ("YB", ["P1"])],
-    "C": [("PC", ["C1", "C2", "C3", "C4"]), ("QC", ["O1", "H1"])],
+    "C": [("PCHOL", ["C1", "C2", "C3", "C4"]), ("PCHOM", ["O1", "H1"])],      # five-character names, equal up to the last letter
     "D": [("AAA", ["S1", "S2"])],
     "W": [("SOL", ["OW", "HW1", "HW2"])],
 }
@@ -203,7 +203,7 @@ def random_case(draw, tier):
     nsp = draw(st.integers(2, 5))
     species = {}
     used_kinds = {("SOL", 3)}
-    resnames = ["R%d%s" % (k, c) for k in range(6) for c in "ABC"] + ["LIG", "ION"]
+    resnames = ["R%d%s" % (k, c) for k in range(6) for c in "ABC"] + ["LIG", "ION", "LIPID", "LIPIE", "W"]
     for s in range(nsp):
         name = "M%d" % s
         nres = draw(st.integers(1, 4))
